@@ -855,3 +855,63 @@ Proof.
   apply Hfinish. unfold frame_window. cbv zeta.
   destruct (f <? 0) eqn:Ef; apply window_eq; rewrite ?zlen_rc_spec; lia.
 Qed.
+
+(* ------------------------------------------------------------------ sequence objects as views *)
+
+(** what the operations mean on the string a sequence shows *)
+Definition str_op (tbl : list (Z * Z)) (t : str) (o : vop) : str :=
+  match o with
+  | ORc => rev (complement_pure tbl t)
+  | OComp => complement_pure tbl t
+  | OSlice a b => pyslice t a b
+  end.
+Fixpoint str_trace (tbl : list (Z * Z)) (t : str) (ops : list vop) : list str :=
+  match ops with
+  | [] => []
+  | o :: r => let t' := str_op tbl t o in t' :: str_trace tbl t' r
+  end.
+
+Lemma my_firstn_map {A B} (f : A -> B) n l : firstn n (map f l) = map f (firstn n l).
+Proof. revert l. induction n as [|n IH]; intros [|a l]; cbn; try reflexivity. rewrite IH. reflexivity. Qed.
+Lemma my_skipn_map {A B} (f : A -> B) n l : skipn n (map f l) = map f (skipn n l).
+Proof. revert l. induction n as [|n IH]; intros [|a l]; cbn; try reflexivity. apply IH. Qed.
+
+Lemma pyslice_map {A B} (f : A -> B) s a b : pyslice (map f s) a b = map f (pyslice s a b).
+Proof. unfold pyslice. cbv zeta. rewrite zlen_map, my_skipn_map, my_firstn_map. reflexivity. Qed.
+
+Lemma complement_rev tbl (s : str) : complement_pure tbl (rev s) = rev (complement_pure tbl s).
+Proof. unfold complement_pure. first [rewrite map_rev; reflexivity | rewrite <- map_rev; reflexivity]. Qed.
+
+(** one operation on a sequence object -- whatever its view state -- acts on the string it shows as
+    the string operation does: complement() = complement_string, rc() = reverse o complement_string *)
+Lemma sview_op_str_lemma v m sv o :
+  sview_str (comp_table v m) (sview_op (comp_table v m) sv o)
+  = str_op (comp_table v m) (sview_str (comp_table v m) sv) o.
+Proof.
+  destruct sv as [u r]. destruct o as [| |a b]; destruct r; unfold sview_op, sview_str, str_op; cbn [sv_under sv_rev negb].
+  - rewrite complement_pure_involutive. reflexivity.
+  - apply complement_rev.
+  - reflexivity.
+  - reflexivity.
+  - unfold complement_pure. rewrite pyslice_map. reflexivity.
+  - reflexivity.
+Qed.
+
+Lemma sview_trace_lemma v m sv ops :
+  sview_trace (comp_table v m) sv ops = str_trace (comp_table v m) (sview_str (comp_table v m) sv) ops.
+Proof.
+  revert sv. induction ops as [|o r IH]; intros sv; [reflexivity|].
+  cbn [sview_trace str_trace]. cbv zeta. rewrite IH, sview_op_str_lemma. reflexivity.
+Qed.
+
+(** complement of a pending-rc view: complement o rc = reverse, rc o rc = identity, on the shown string *)
+Lemma complement_of_rc_lemma v m s :
+  sview_str (comp_table v m) (sview_op (comp_table v m) (sview_op (comp_table v m) (mk_sview s false) ORc) OComp) = rev s
+  /\ sview_str (comp_table v m) (sview_op (comp_table v m) (sview_op (comp_table v m) (mk_sview s false) ORc) ORc) = s.
+Proof.
+  rewrite !sview_op_str_lemma. unfold sview_str, str_op. cbn [sv_rev sv_under]. split.
+  - rewrite <- complement_rev, complement_pure_involutive. reflexivity.
+  - change (rev (complement_pure (comp_table v m) (rev (complement_pure (comp_table v m) s))))
+      with (rc_pure (comp_table v m) (rc_pure (comp_table v m) s)).
+    apply rc_pure_involutive.
+Qed.
